@@ -197,7 +197,7 @@ func (actScen) Exec(w *World, cc any, prop string) *Result {
 		post := Snap(w.Home)
 		created, removed, changed := pre.Diff(post)
 		delta := s.logDelta()
-		res.event("act%d %v cwd=%q use=%q/%s failed=%v created=%v removed=%v changed=%v log=%v perms=%v stdout=%s", ai, a.Args, cwdRel, useDir, useKind, obs.Failed, created, removed, changed, delta, obs.Perms, shortHash(obs.Stdout))
+		res.event("act%d %v cwd=%q use=%q/%s failed=%v created=%v removed=%v changed=%v log=%v perms=%v stdout=%s", ai, a.Args, cwdRel, useDir, useKind, obs.Failed, created, removed, changed, delta, obs.Perms, normHash(obs.Stdout))
 		if obs.Out.Panic != "" || obs.Out.Deadlock {
 			res.Abandoned = "C18: invocation ended abnormally: " + short(obs.Out.Panic, 200)
 			return res
